@@ -894,9 +894,6 @@ func findingClass(f *Fn) string {
 	case f.Op == "/" && f.Shape == "VC" && fl && cis("0"):
 		// "division by zero" compile error for a float / complex constant zero divisor (Go: +-Inf / NaN at run time)
 		return "finding:float-quo-const-zero"
-	case strings.Contains(f.C.Text, "1.0000000596046447763"):
-		// typed float32 constant rounded through float64 first (double rounding)
-		return "finding:float32-const-double-rounding"
 	case f.KA.Cat == cFloat && (f.Op == "*" || f.Op == "+") && cis("0"):
 		// x*0 -> 0 (Go: NaN for NaN/Inf, -0 for negative x), 0+x -> x (Go: +0 for x = -0)
 		return "finding:float-const-shortcut"
